@@ -805,11 +805,11 @@ def cases(ctx):
                     for pi, toks in enumerate(ov_patterns(w)):
                         for kind in '/?':
                             for more in ([], [['n', None, 1, '']], [['N', None, 1, '']], None):
-                                if not rng.chance(1, (45 if pi < 6 else 200) if ctx.quick else 5):
+                                if not rng.chance(1, (75 if pi < 6 else 300) if ctx.quick else 5):
                                     continue
                                 cnt = 1 if more is not None else 2
                                 out.append({'text': text, 'ic': not rng.chance(1, 4), 'row': r, 'col': c, 'cmds': [[kind, toks, cnt, '']] + (more or []), 'src': 'overlap'})
-                    if rng.chance(1, 6 if ctx.quick else 1):
+                    if rng.chance(1, 8 if ctx.quick else 1):
                         out.append({'text': text, 'ic': True, 'row': r, 'col': c,
                                     'cmds': [['A', None, rng.choice([1, 1, 2]), '']] + rng.choice([[], [['n', None, 1, '']], [['N', None, 1, '']]]), 'src': 'overlap'})
     for i in range(250 if ctx.quick else 5000):
